@@ -731,6 +731,129 @@ fn alphabet(n: u8, which: &str) -> Vec<LEv> {
     evs
 }
 
+// ---------------------------------------------------------------------------------------
+// Declined requests between real nodes (C10: a declined request changes nothing in the
+// acceptor's store; C11: a request for a document that is not being synced is declined).
+// Node B holds the document but does not sync it (variant 0), holds an entry of it (1), or has
+// dropped it and then called `start_sync` through a handle that survived the drop (2: the call
+// fails, the node must not count the document as syncing afterwards). Node A dials B.
+// ---------------------------------------------------------------------------------------
+
+pub async fn decline_scenario(variant: u8, salt: u64) -> anyhow::Result<Vec<(&'static str, String)>> {
+    use iroh_docs::engine::LiveEvent;
+    let mut bad = vec![];
+    set_clock(NOW);
+    let a = live_node(0x75).await?;
+    let b = live_node(0x76).await?;
+    let sec = secret(salt, 11);
+    let doc_a = a.docs.api().import_namespace(Capability::Write(sec.clone())).await?;
+    let doc_b = b.docs.api().import_namespace(Capability::Write(sec.clone())).await?;
+    set_clock(T0 + 3);
+    doc_a.set_bytes(a.author, b"ka".to_vec(), b"from a".to_vec()).await?;
+    if variant >= 1 {
+        doc_b.set_bytes(b.author, b"kb".to_vec(), b"from b".to_vec()).await?;
+    }
+    set_clock(NOW);
+    let mut stale: Option<Doc> = None;
+    if variant == 2 {
+        // a second handle survives the drop; start_sync through it has to fail
+        let h2 = b.docs.api().open(sec.id()).await?.ok_or_else(|| anyhow::anyhow!("open"))?;
+        let _ = doc_b.close().await;
+        let _ = b.docs.api().drop_doc(sec.id()).await;
+        let res = h2.start_sync(vec![]).await;
+        if res.is_ok() {
+            // (not a verdict of these properties; recorded for the reader of the replay)
+            eprintln!("note: start_sync on a dropped document succeeded");
+        }
+        stale = Some(h2);
+    }
+    let before = if variant == 2 { None } else { Some((dump(&doc_b).await, doc_b.get_sync_peers().await.map_err(|e| e.to_string()), doc_b.get_download_policy().await.map_err(|e| e.to_string()))) };
+    let (log, task) = event_log(&doc_a).await.map_err(|e| anyhow::anyhow!(e))?;
+    doc_a.start_sync(vec![b.router.endpoint().addr()]).await?;
+    // A's dial to B ends one way or the other
+    let start = std::time::Instant::now();
+    let outcome = loop {
+        let found = log.lock().unwrap().iter().find_map(|e| if let LiveEvent::SyncFinished(s) = e { Some(s.result.clone()) } else { None });
+        if let Some(o) = found {
+            break Some(o);
+        }
+        if start.elapsed() > Duration::from_secs(20) {
+            break None;
+        }
+        tokio::time::sleep(Duration::from_millis(10)).await;
+    };
+    task.abort();
+    match &outcome {
+        Some(Ok(d)) => bad.push(("request_for_a_document_not_being_synced_is_declined", format!("variant {variant}: node B does not sync the document, yet node A's request ended as a successful session ({} sent, {} received)", d.entries_sent, d.entries_received))),
+        Some(Err(_)) => {}
+        None => bad.push(("dial_ends", format!("variant {variant}: node A's dial to a node that does not sync the document was not reported as finished within 20 s"))),
+    }
+    // give B's bookkeeping of the declined request a moment, then look at its store
+    tokio::time::sleep(Duration::from_millis(150)).await;
+    if let Some(before) = before {
+        let after = (dump(&doc_b).await, doc_b.get_sync_peers().await.map_err(|e| e.to_string()), doc_b.get_download_policy().await.map_err(|e| e.to_string()));
+        if after != before {
+            bad.push(("declined_request_changes_nothing", format!("variant {variant}: node B declined the request; its document before: entries {:?}, peers {:?}; after: entries {:?}, peers {:?}", before.0.as_ref().map(|d| d.len()), before.1, after.0.as_ref().map(|d| d.len()), after.1)));
+        }
+    }
+    drop(stale);
+    let _ = tokio::time::timeout(Duration::from_secs(5), a.router.shutdown()).await;
+    let _ = tokio::time::timeout(Duration::from_secs(5), b.router.shutdown()).await;
+    Ok(bad)
+}
+
+/// `which`: "C10" reports the store clause, "C11" the decline clause.
+pub fn run_decline_family(ctx: &Ctx, report: &mut Report, which: &'static str) {
+    for variant in 0..3u8 {
+        let ordinal = (1u64 << 45) + 3 + 5 * variant as u64;
+        if !ctx.mine(ordinal) {
+            continue;
+        }
+        let rt = runtime();
+        let res = rt.block_on(decline_scenario(variant, ordinal));
+        drop(rt);
+        report.evaluations += 1;
+        report.nontrivial += 1;
+        report.count("declined_requests_between_real_nodes", 1);
+        let case = json!({"decline": variant, "salt": ordinal});
+        match res {
+            Err(e) => report.machinery_error(format!("decline scenario {variant}: {e:#}")),
+            Ok(bad) => {
+                for (o, d) in bad {
+                    let mine = match which {
+                        "C10" => o == "declined_request_changes_nothing" || o == "dial_ends",
+                        _ => o == "request_for_a_document_not_being_synced_is_declined",
+                    };
+                    if mine {
+                        report.violation(o, json!({"live": true, "variant": variant}), case.clone(), d, ordinal);
+                    }
+                }
+            }
+        }
+    }
+}
+
+pub fn replay_decline(case: &Value, which: &'static str) -> anyhow::Result<Option<(bool, String)>> {
+    let Some(v) = case.get("decline").and_then(|v| v.as_u64()) else { return Ok(None) };
+    let salt = case["salt"].as_u64().unwrap_or(7);
+    let rt = runtime();
+    let bad = rt.block_on(decline_scenario(v as u8, salt))?;
+    drop(rt);
+    let bad: Vec<_> = bad
+        .into_iter()
+        .filter(|(o, _)| match which {
+            "C10" => *o == "declined_request_changes_nothing" || *o == "dial_ends",
+            _ => *o == "request_for_a_document_not_being_synced_is_declined",
+        })
+        .collect();
+    for (o, d) in &bad {
+        eprintln!("detail: {o}: {d}");
+    }
+    let names: BTreeSet<&str> = bad.iter().map(|(o, _)| *o).collect();
+    let out: String = names.iter().map(|o| format!("FAILED {o}\n")).collect();
+    Ok(Some((!bad.is_empty(), format!("declined request between real nodes, variant {v}\n{out}"))))
+}
+
 const SHORT: Duration = Duration::from_secs(20);
 const LONG: Duration = Duration::from_secs(120);
 /// how long a history waits for the swarm to converge by itself (a timing point, not an oracle)
